@@ -141,14 +141,24 @@ Theorem C20_unit_at_centre_of_optimum : forall K minpos jsa_raw singles_raw norm
   (singles_of singles_raw norm_singles so w0s w0i <> 0 -> jsi_singles_normalized singles_raw norm_singles j w0s w0i = 1).
 Proof. exact unit_at_centre_of_optimum. Qed.
 
+(* the same PER SETUP: only what optimising THIS setup asks of the oracles *)
+Theorem C20_idempotent_now_at : forall K minpos s s' nf,
+  optimum_contract_at K minpos s -> try_as_optimum_now K minpos s = Ok (s', nf) -> try_as_optimum_now K minpos s' = Ok (s', nf).
+Proof. exact optimum_idempotent_now_at. Qed.
+
 (* COMPOSED with the generated / proved kernels of C03 / C04 (oracles_of_model, any index function, any Snell inverse, any
-   termination tests): the two collinear contracts are PROVED for that instance (external angle asin(n sin 0) = 0; emission angle
-   of a collinear signal: val = n_s sin(theta_s) / sqrt(arg) = 0 whatever the poling), so idempotence has no oracle hypothesis. *)
-Theorem C20_collinear_contract_composed : forall index_of snell_inv sd_theta sd_period,
-  collinear_contract (oracles_of_model index_of snell_inv sd_theta sd_period).
-Proof. exact collinear_contract_composed. Qed.
+   termination tests; every partial floating-point operation guarded by its definedness): the contract of optimising a setup is
+   PROVED for that instance (external angle of the collinear optimised signal: n sin 0 = 0, asin 0 whatever the crystal angle;
+   emission angle of a collinear signal: val = n_s sin(theta_s) / sqrt(arg) = 0 whatever the poling) PROVIDED the idler's angle is
+   defined (arg > 0) under the poling before and after the optimisation -- where it is not, the implementation's idler angle is
+   NaN under one of them and the two runs differ. *)
+Theorem C20_optimum_contract_composed : forall index_of snell_inv sd_theta sd_period minpos s,
+  idler_defined_before_and_after index_of snell_inv sd_theta sd_period minpos s ->
+  optimum_contract_at (oracles_of_model index_of snell_inv sd_theta sd_period) minpos s.
+Proof. exact optimum_contract_composed. Qed.
 
 Theorem C20_idempotent_composed : forall index_of snell_inv sd_theta sd_period minpos s s' nf,
+  idler_defined_before_and_after index_of snell_inv sd_theta sd_period minpos s ->
   try_as_optimum_now (oracles_of_model index_of snell_inv sd_theta sd_period) minpos s = Ok (s', nf) ->
   try_as_optimum_now (oracles_of_model index_of snell_inv sd_theta sd_period) minpos s' = Ok (s', nf).
 Proof. exact idempotent_composed. Qed.
@@ -163,7 +173,8 @@ Proof. exact (ex_optimises optimum_idler_sees_old_poling optimum_waist_sees_old_
 
 Print Assumptions C20_try_as_optimum_is_generated.
 Print Assumptions C20_spectrum_is_generated.
-Print Assumptions C20_collinear_contract_composed.
+Print Assumptions C20_optimum_contract_composed.
+Print Assumptions C20_idempotent_now_at.
 Print Assumptions C20_idempotent_composed.
 Print Assumptions C20_idempotent_now.
 Print Assumptions C20_unit_at_centre_of_optimum.
